@@ -27,7 +27,7 @@ def run(repo, tier) -> Result:
     # Hexital.candles(timeframe): a new timeframe manager must collapse its own deep copy of the base candles
     from .c08 import check_binding
 
-    check_binding(res, repo, prop="C03")
+    check_binding(res, repo, prop="C03", raw_required=False)  # C03 only needs "its own copy" (no candlestick type in its quantifier)
     res.rule("R-INTERVAL", floor=6)
     res.rule("R-VN-MERGE", floor=6)
     return res
